@@ -310,7 +310,7 @@ class ProgGen:
 			elif k == 'o':
 				decl(rng.choice([f'o.{self.base_attr}', f'o.{meth}(1)', f'[o, o][0].{self.base_attr}']))
 			elif k == 't':
-				decl(rng.choice(['t[0]', 't[1]', 't[1:]', 't[:1]']))
+				decl(rng.choice(['t[0]', 't[1]', 't[1:]', 't[:1]', 't[-1:]', 't[:-1]']))
 			elif k == 's':
 				decl(rng.choice(['s.upper()', 's[0]', 's.split("x")', 's.find("y")']))
 			elif k == 'tern-list':
@@ -475,7 +475,7 @@ class ProgGen:
 			if k.startswith('tuple[') and rng.random() < 0.7:
 				decl(f'{o1}.{a}[0]')
 				decl(f'{o1}.{a}[1]')
-				decl(f"{o1}.{a}[{rng.choice(['', '0', '1', '2'])}:{rng.choice(['', '', '1', '2', '3'])}]")
+				decl(f"{o1}.{a}[{rng.choice(['', '0', '1', '2', '-1', '-2', '+1'])}:{rng.choice(['', '', '1', '2', '3', '-1', '-3'])}]")
 		for m, k in getters:
 			if rng.random() < 0.8:
 				decl(f'{rng.choice(objs)}.{m}()')
